@@ -48,8 +48,9 @@ MC_NOTE = "E2: each transition applies the operation to the real object (rebuilt
 PROPS["C06"] = dict(
     level="model_checking",
     engine="E2",
-    parts=[dict(bin="e2_bitvec", opts={"prop": "C06"}, tag="clean")],
-    rule="BFS over operation histories from clean seeds; unit = (seed, first operation); a unit is non-trivial when its start state has a partially used last word or spare words",
+    parts=[dict(bin="e2_bitvec", opts={"prop": "C06"}, tag="clean"),
+           dict(bin="e1_huge", opts={"prop": "C06"}, shards=3, tag="huge-all-ones")],
+    rule="(plus three all-ones vectors of 2^32+1 / +200 / +192 bits, plain and atomic, counted before and after clearing two bits: counters that must hold 2^32 ones) BFS over operation histories from clean seeds; unit = (seed, first operation); a unit is non-trivial when its start state has a partially used last word or spare words",
     alphabet="push(b) pop set(i,b) i in {0,1,62,63,64,65,127,len/2,len-1} resize(n,b) n in {0,1,63,64,65,129} fill flip reset par_fill par_flip par_reset extend([1,0,1]) to_owned; set through Box, &mut [usize], AtomicBitVec (Vec and Box) set/swap, atomic fill/flip/reset and par_ variants; seeds new/with_value/with_capacity/collect/bit_vec! forms at lengths {0,1,63,64,65,128}",
     bound={"quick": "all histories of <= 4 operations from every seed", "thorough": "all histories of <= 6 operations, lengths also 2,127,129"},
     oracle="in every state: In seed states the iterators are also driven through the rest of the Iterator protocol (size_hint at every step, polling after the end, nth(k) / nth twice / skip(k).count() for k around the length and usize::MAX, step_by, count, last) against the slice iterator over the model; len, get, Index, iter, (&b).into_iter, iter_ones, iter_zeros, count_ones/zeros, par_count_ones, ==/!= against fresh equal / one-bit-different / different-only-beyond-len / longer vectors, to_owned, AtomicBitVec get/Index/count_ones/par_count_ones/iter, slice-backed reads equal the Vec<bool> model; get/Index/set and atomic get/set/swap/Index at len, len+1, MAX panic and leave the storage unchanged; on every transition: return values equal the model's and storage bits outside the written elements are unchanged",
@@ -102,7 +103,7 @@ PROPS["C01"] = dict(
            dict(bin="e1_huge", opts={"prop": "C01"}, shards=4, tag="huge")],
     rule=RS_RULE,
     alphabet="Rank9; RankSmall<2,9|1,9|1,10|1,11|3,13>; each under Select9, SelectAdapt, SelectZeroAdapt, SelectAdaptConst, SelectZeroAdaptConst, SelectSmall, SelectZeroSmall in both nesting orders (25 rank-capable stacks)",
-    bound={"quick": "L=600, K=1 over 26 lengths, K=2 over 10 lengths x 7 kinds; all p in 0..=len+2 and usize::MAX (boundary set beyond 2200 bits); four vectors longer than 2^32 bits (upper counters of RankSmall, positions beyond 32 bits) probed at the boundary positions", "thorough": "L=1100, K<=2 over 26 lengths x 7 kinds, K=3 over 9 lengths"},
+    bound={"quick": "L=600, K=1 over 26 lengths, K=2 over 10 lengths x 7 kinds; all p in 0..=len+2 and usize::MAX (boundary set beyond 2200 bits); four sparse vectors longer than 2^32 bits (upper counters of RankSmall, positions beyond 32 bits) and three all-ones vectors of 2^32+1/+192/+200 bits (2^32 ones: counter widths), before and after clearing bits 5 and 2^32-1, probed at the boundary positions", "thorough": "L=1100, K<=2 over 26 lengths x 7 kinds, K=3 over 9 lengths"},
     oracle="prefix-popcount table of the Vec<bool> model: rank(p) = ones among first min(p,len) bits, rank_zero(p) = p - rank(p) for p <= len, num_ones/num_zeros/count_ones/count_zeros/len and Index equal the model",
     assumptions=STRICT + ["bit vectors with garbage supplied through unsafe from_raw_parts are outside C01/C02 (the property names stale bits left by pop/truncation)"],
 )
@@ -115,7 +116,7 @@ PROPS["C02"] = dict(
            dict(bin="e1_huge", opts={"prop": "C02"}, shards=4, tag="huge")],
     rule=RS_RULE,
     alphabet="Select9; SelectAdapt/SelectZeroAdapt::{new(m), with_span(L,m), with_inv(k,m)} k in {0,1,3,5,12} (thorough 0,1,2,3,4,5,9,12), m in {0,1,3} (thorough 0..3), L in {1,64,8192}; Select(Zero)AdaptConst<K,M> for (0,0) (1,0) (2,1) (4,2) (12,3) (13,0); Select(Zero)Small x5 with_inv(b) b in {1,2,8,100}; both nesting orders; bases AddNumBits<BitVec>, Rank9, RankSmall",
-    bound={"quick": "same vectors as C01 quick; all r in 0..=count+1 and usize::MAX (boundary set beyond 2200); four vectors longer than 2^32 bits with ones more than 2^32 apart (64-bit span encoding) and select_zero across the 2^32 boundary", "thorough": "same vectors as C01 thorough"},
+    bound={"quick": "same vectors as C01 quick; all r in 0..=count+1 and usize::MAX (boundary set beyond 2200); four vectors longer than 2^32 bits with ones more than 2^32 apart (64-bit span encoding) and select_zero across the 2^32 boundary; the three all-ones vectors of C01 under four selectors (ranks around 2^32, an upper block without inventory entry)", "thorough": "same vectors as C01 thorough"},
     oracle="ones/zeros position lists of the Vec<bool> model: select(r) = Some(position of the r-th one) iff r < m, select_zero likewise; rank(select(r)) = r on stacks that offer both",
     assumptions=STRICT + ["the 64-bit span encoding (ones more than 2^32 bits apart) is exercised by four hand-picked vectors only (counters inventory_entries_*_span and spill_words, read through a cfg(sux_verif) accessor, report how many entries of each encoding the built structures contain)"],
 )
